@@ -1,10 +1,1057 @@
-(** C10: the replica-validation part of the oracle ([rep_rule_ok] in Corr/C10.v) is no stricter
-    than the model: the observations the model's [replica_step] would produce for ANY stream of
-    ticks fed to ANY replica satisfy it. *)
+(** C10: the oracle is no stricter than the model.
+    [oracle_sound]: for EVERY case, if the model reproduces all observations ([corr_b c = true])
+    then the observations satisfy the property oracle ([prop_b c = true]) - numbering and shape of
+    the tick stream, terminal flags, engine sequence, the replica's accept / skip / reject rule and
+    frame, the whole-stream run, and (on unperturbed streams whose processed part meets the input
+    requirements, [wf_case]) the engine/replica simulation part, which is where the theorems of
+    Proofs/Replica.v (Rst_step, marker_free_step, replica_step_next) enter.
+    [rep_rule_sound] is the earlier stand-alone statement about the validation rule. *)
 From Coq Require Import List ZArith NArith Bool Lia.
 From BV Require Import Base.Common Model.Replica Proofs.Replica Corr.C10.
 Import ListNotations.
 
+(* ---- group 0: decidable equalities and the observed order lists ---------------------------- *)
+Lemma meta_eqb_eq a b : meta_eqb a b = true -> a = b.
+Proof.
+  destruct a, b. unfold meta_eqb. cbn. intro H.
+  apply andb_prop in H. destruct H as [H H3]. apply andb_prop in H. destruct H as [H1 H2].
+  apply Z.eqb_eq in H1, H2, H3. congruence.
+Qed.
+Lemma meta_eqb_refl a : meta_eqb a a = true.
+Proof. destruct a. unfold meta_eqb. cbn. now rewrite !Z.eqb_refl. Qed.
+
+Lemma ostate_eqb_eq a b : ostate_eqb a b = true -> a = b.
+Proof.
+  destruct a as [|m|[m|]], b as [|m'|[m'|]]; cbn; intro H; try discriminate; try reflexivity;
+    apply meta_eqb_eq in H; congruence.
+Qed.
+Lemma ostate_eqb_refl a : ostate_eqb a a = true.
+Proof. destruct a as [|m|[m|]]; cbn; auto using meta_eqb_refl. Qed.
+
+Lemma order_eqb_eq a b : order_eqb a b = true -> a = b.
+Proof.
+  destruct a, b. unfold order_eqb. cbn. intro H.
+  apply andb_prop in H. destruct H as [H H3]. apply andb_prop in H. destruct H as [H1 H2].
+  apply Z.eqb_eq in H1, H2. apply ostate_eqb_eq in H3. congruence.
+Qed.
+Lemma order_eqb_refl a : order_eqb a a = true.
+Proof. destruct a. unfold order_eqb. cbn. now rewrite !Z.eqb_refl, ostate_eqb_refl. Qed.
+
+Lemma oorder_eqb_eq (x y : option order) : option_eqb order_eqb x y = true -> x = y.
+Proof. destruct x, y; cbn; intro H; try discriminate; auto. now apply order_eqb_eq in H; subst. Qed.
+Lemma oorder_eqb_refl (x : option order) : option_eqb order_eqb x x = true.
+Proof. destruct x; cbn; auto using order_eqb_refl. Qed.
+
+Lemma okey_mem_In k l : okey_mem k l = true <-> In k l.
+Proof.
+  unfold okey_mem. rewrite existsb_exists. split.
+  - intros (x & Hx & E). destruct (okey_eqb_spec k x); [now subst|discriminate].
+  - intro H. exists k. split; [exact H|apply okey_eqb_refl].
+Qed.
+
+Lemma ofind_None m k : ofind m k = None <-> ~ In k (map fst m).
+Proof.
+  induction m as [|[k0 o] t IH]; cbn; [tauto|].
+  destruct (okey_eqb_spec k0 k) as [E|E].
+  - subst. split; [discriminate|]. intro H. elim H. now left.
+  - rewrite IH. split; intro H; [intros [F|F]; [congruence|tauto]|tauto].
+Qed.
+
+Lemma ofind_Some_In m k o : ofind m k = Some o -> In (k, o) m.
+Proof.
+  induction m as [|[k0 o0] t IH]; cbn; [discriminate|].
+  destruct (okey_eqb_spec k0 k) as [E|E].
+  - intro H. injection H as <-. subst. now left.
+  - intro H. right. auto.
+Qed.
+
+Lemma In_ofind_nodup m k o :
+  keys_nodup (map fst m) = true -> In (k, o) m -> ofind m k = Some o.
+Proof.
+  induction m as [|[k0 o0] t IH]; cbn; [tauto|].
+  intro H. apply andb_prop in H. destruct H as [H1 H2]. intros [E|I].
+  - injection E as -> ->. now rewrite okey_eqb_refl.
+  - destruct (okey_eqb_spec k0 k) as [E|E]; [|auto].
+    subst k0. apply negb_true_iff in H1.
+    assert (In k (map fst t)) by (apply in_map_iff; exists (k, o); auto).
+    apply okey_mem_In in H. congruence.
+Qed.
+
+(** [omap_eqb] is extensional equality of the two maps *)
+Lemma omap_eqb_ext m a : omap_eqb m a = true -> forall k, ofind m k = ofind a k.
+Proof.
+  unfold omap_eqb. intro H. apply andb_prop in H. destruct H as [_ H]. intro k.
+  rewrite forallb_forall in H.
+  destruct (in_dec (fun x y => match okey_eqb_spec x y with ReflectT _ e => left e | ReflectF _ n => right n end)
+                   k (map fst m ++ map fst a)) as [I|I].
+  - apply oorder_eqb_eq. auto.
+  - assert (~ In k (map fst m) /\ ~ In k (map fst a)) as [I1 I2].
+    { split; intro; apply I; apply in_or_app; auto. }
+    apply ofind_None in I1, I2. congruence.
+Qed.
+
+Lemma omap_eqb_nodup m a : omap_eqb m a = true -> keys_nodup (map fst a) = true.
+Proof. unfold omap_eqb. intro H. apply andb_prop in H. tauto. Qed.
+
+Lemma omap_eqb_intro a b :
+  keys_nodup (map fst b) = true -> (forall k, ofind a k = ofind b k) -> omap_eqb a b = true.
+Proof.
+  intros N E. unfold omap_eqb. rewrite N. cbn. apply forallb_forall. intros k _.
+  rewrite E. apply oorder_eqb_refl.
+Qed.
+
+(** two observations of the same model map agree *)
+Lemma omap_eqb_via m a b : omap_eqb m a = true -> omap_eqb m b = true -> omap_eqb a b = true.
+Proof.
+  intros Ha Hb. apply omap_eqb_intro; [exact (omap_eqb_nodup _ _ Hb)|].
+  intro k. rewrite <- (omap_eqb_ext _ _ Ha k). apply (omap_eqb_ext _ _ Hb).
+Qed.
+
+(* ---- group 1: list_match ------------------------------------------------------------------------ *)
+Lemma list_match_length {A B} (f : A -> B -> bool) l1 l2 :
+  list_match f l1 l2 = true -> length l1 = length l2.
+Proof.
+  revert l2; induction l1 as [|x t IH]; intros [|y t2]; cbn; intro H; try discriminate; auto.
+  apply andb_prop in H. f_equal. apply IH. tauto.
+Qed.
+
+Lemma list_match_app_l {A B} (f : A -> B -> bool) l1 x l2 :
+  list_match f (l1 ++ [x]) l2 = true ->
+  exists l2' y, l2 = l2' ++ [y] /\ list_match f l1 l2' = true /\ f x y = true.
+Proof.
+  revert l2; induction l1 as [|a t IH]; intros [|b t2]; cbn; intro H; try discriminate.
+  - destruct t2; [|rewrite andb_false_r in H; discriminate].
+    exists [], b. rewrite andb_true_r in H. auto.
+  - apply andb_prop in H. destruct H as [H1 H2].
+    destruct (IH _ H2) as (l2' & y & E & M & F). exists (b :: l2'), y. subst. cbn.
+    rewrite H1, M. auto.
+Qed.
+
+Lemma list_match_nth {A B} (f : A -> B -> bool) l1 l2 k x :
+  list_match f l1 l2 = true -> nth_error l1 k = Some x ->
+  exists y, nth_error l2 k = Some y /\ f x y = true.
+Proof.
+  revert l2 k; induction l1 as [|a t IH]; intros [|b t2] k; cbn; intros H N; try discriminate;
+    try (destruct k; discriminate).
+  apply andb_prop in H. destruct H as [H1 H2]. destruct k; cbn in *.
+  - injection N as <-. eauto.
+  - eauto.
+Qed.
+
+Lemma list_eqb_N_refl l : list_eqb N.eqb l l = true.
+Proof. induction l; cbn; auto. now rewrite N.eqb_refl. Qed.
+
+(* ---- group 2: the model run behind a case ------------------------------------------------------- *)
+Lemma derive_feed_fst bad hook f : forall st, map fst (derive_feed bad hook st f) = map fst f.
+Proof. induction f as [|[e s] f IH]; intro st; cbn; [reflexivity|]. now rewrite IH. Qed.
+
+Lemma model_run_spec md sinit tr0 bad hook pre feed :
+  let m := model_run md sinit tr0 bad hook pre feed in
+  exists e1 : engine unit,
+    e_seq e1 = (fst (mr_snap m) + 1)%N /\ e_state e1 = snd (mr_snap m) /\
+    map fst (mr_feed m) = map fst feed /\
+    match md with
+    | Manual => m_run_manual e1 (mr_feed m) = (mr_final m, mr_ticks m) /\
+                mr_eng m = map Some (m_trace e1 (mr_feed m))
+    | _ => m_run_loop e1 (mr_feed m) = (mr_final m, mr_ticks m) /\
+           mr_eng m = repeat None (pred (length (mr_ticks m))) ++ [Some (mr_final m)]
+    end.
+Proof.
+  unfold model_run, audit_snapshot.
+  set (e_pre := fst (m_run_manual _ _)).
+  set (e1 := mkEngine (e_state e_pre) (e_seq e_pre + 1)).
+  set (feed' := derive_feed bad hook (e_state e1) feed).
+  destruct md.
+  - destruct (m_run_manual e1 feed') as [e2 ticks] eqn:H. cbn. exists e1.
+    repeat split; auto. apply derive_feed_fst.
+  - destruct (m_run_loop e1 feed') as [e2 ticks] eqn:H. cbn. exists e1.
+    repeat split; auto. apply derive_feed_fst.
+  - destruct (m_run_loop e1 feed') as [e2 ticks] eqn:H. cbn. exists e1.
+    repeat split; auto. apply derive_feed_fst.
+Qed.
+
+Lemma tick_matches_spec t o :
+  tick_matches t o = true ->
+  fst t = t_seq o /\ is_process (snd t) = t_proc o /\ t_same o = true /\
+  is_terminal (snd t) = t_term o /\ audit_errs (snd t) = t_errs o.
+Proof.
+  unfold tick_matches. intro H.
+  repeat match goal with
+         | H : (_ && _)%bool = true |- _ => apply andb_prop in H; destruct H
+         end.
+  repeat match goal with
+         | H : N.eqb _ _ = true |- _ => apply N.eqb_eq in H
+         | H : Bool.eqb _ _ = true |- _ => apply eqb_prop in H
+         end. auto.
+Qed.
+
+Lemma ticks_seq_map mts ticks :
+  list_match tick_matches mts ticks = true -> map t_seq ticks = map fst mts.
+Proof.
+  revert ticks; induction mts as [|t mts IH]; intros [|o ticks]; cbn; intro H; try discriminate; auto.
+  apply andb_prop in H. destruct H as [H1 H2]. apply tick_matches_spec in H1.
+  destruct H1 as [-> _]. f_equal. auto.
+Qed.
+
+Lemma numbering_ok mts ticks s :
+  list_match tick_matches mts ticks = true -> map fst mts = seqN s (length mts) ->
+  list_eqb N.eqb (map t_seq ticks) (seqN s (length ticks)) = true.
+Proof.
+  intros M E. rewrite (ticks_seq_map _ _ M), E, (list_match_length _ _ _ M).
+  apply list_eqb_N_refl.
+Qed.
+
+(** what the k-th model tick of a run carries *)
+Definition carries (f : list ev) (k0 : nat) (mts : list mtick) : Prop :=
+  forall j t, nth_error mts j = Some t ->
+    snd t = AFeedEnded \/
+    exists errs o x, snd t = AProcess x errs o /\ nth_error f (k0 + j) = Some x.
+
+Lemma run_manual_carries : forall (f : list (ev * script)) e e' ts,
+  m_run_manual e f = (e', ts) -> carries (map fst f) 0 ts /\
+  Forall (fun t => is_process (snd t) = true) ts.
+Proof.
+  induction f as [|[x sc] f IH]; intros e e' ts H; cbn [Replica.run_manual] in H.
+  - injection H as <- <-. split; [|constructor]. intros [|j] t N; discriminate.
+  - destruct (process_with_audit_spec unit unit u_z u_z u_p u_p e x sc) as (errs & o & Hp).
+    rewrite Hp in H. destruct (m_run_manual _ f) as [e'' ts'] eqn:Hr. injection H as <- <-.
+    destruct (IH _ _ _ Hr) as [C F]. split; [|constructor; [reflexivity|exact F]].
+    intros [|j] t N; cbn in N.
+    + injection N as <-. right. exists errs, o, x. split; reflexivity.
+    + destruct (C j t N) as [E|(er & oo & y & E1 & E2)]; [now left|].
+      right. exists er, oo, y. split; [exact E1|exact E2].
+Qed.
+
+Lemma run_loop_carries : forall (f : list (ev * script)) e e' ts,
+  m_run_loop e f = (e', ts) -> carries (map fst f) 0 ts.
+Proof.
+  induction f as [|[x sc] f IH]; intros e e' ts H; cbn [Replica.run_loop] in H.
+  - unfold audit_feed_ended in H. injection H as <- <-. intros [|[|j]] t N; try discriminate.
+    injection N as <-. now left.
+  - destruct (process_with_audit_spec unit unit u_z u_z u_p u_p e x sc) as (errs & o & Hp).
+    rewrite Hp in H. cbn [snd] in H.
+    assert (HD : forall t, (e_seq e, AProcess x errs o) = t ->
+                 snd t = AFeedEnded \/
+                 exists errs0 o0 x0, snd t = AProcess x0 errs0 o0 /\
+                                     nth_error (map fst ((x, sc) :: f)) 0 = Some x0).
+    { intros t <-. right. exists errs, o, x. split; reflexivity. }
+    destruct (is_terminal (AProcess x errs o)).
+    + injection H as <- <-. intros [|[|j]] t N; try discriminate. injection N as N. auto.
+    + destruct (m_run_loop _ f) as [e'' ts'] eqn:Hr. injection H as <- <-.
+      intros [|j] t N; cbn in N.
+      * injection N as N. auto.
+      * destruct (IH _ _ _ Hr j t N) as [E|(er & oo & y & E1 & E2)]; [now left|].
+        right. exists er, oo, y. split; [exact E1|exact E2].
+Qed.
+
+Lemma carries_shift f k mts t : carries f k (t :: mts) -> carries f (S k) mts.
+Proof. intros C j u N. specialize (C (S j) u N). now rewrite <- plus_n_Sm in C. Qed.
+
+Lemma fed_is_shutdown_spec (feed : list (ev * strat)) k x :
+  nth_error (map fst feed) k = Some x -> fed_is_shutdown feed k = is_shutdown x.
+Proof.
+  unfold fed_is_shutdown. rewrite nth_error_map. destruct (nth_error feed k) as [[y s]|]; cbn;
+    [|discriminate]. intro H. injection H as ->. destruct x; reflexivity.
+Qed.
+
+Lemma terminal_flags_sound (feed : list (ev * strat)) : forall mts ticks k,
+  list_match tick_matches mts ticks = true -> carries (map fst feed) k mts ->
+  terminal_flags_ok feed k ticks = true.
+Proof.
+  induction mts as [|t mts IH]; intros [|o ticks] k M C; cbn in M; try discriminate; [reflexivity|].
+  apply andb_prop in M. destruct M as [M1 M2]. cbn [terminal_flags_ok].
+  rewrite (IH _ _ M2 (carries_shift _ _ _ _ C)), andb_true_r.
+  apply tick_matches_spec in M1. destruct M1 as (_ & P & _ & T & E).
+  rewrite <- P, <- T, <- E. destruct (C 0%nat t eq_refl) as [F|(errs & oo & x & F & N)]; rewrite F.
+  - reflexivity.
+  - rewrite Nat.add_0_r in N. rewrite (fed_is_shutdown_spec _ _ _ N). cbn.
+    destruct (is_shutdown x), errs; reflexivity.
+Qed.
+
+(** shape of the observed stream *)
+Lemma manual_shape_sound mts ticks n :
+  list_match tick_matches mts ticks = true -> length mts = n ->
+  Forall (fun t => is_process (snd t) = true) mts ->
+  (Nat.eqb (length ticks) n && forallb (fun t => t_proc t && t_same t) ticks)%bool = true.
+Proof.
+  intros M L F. rewrite <- (list_match_length _ _ _ M), L, Nat.eqb_refl. cbn. clear L.
+  revert ticks M. induction F as [|t mts Ht F IH]; intros [|o ticks] M; cbn in M; try discriminate;
+    [reflexivity|].
+  apply andb_prop in M. destruct M as [M1 M2]. cbn. rewrite (IH _ M2), andb_true_r.
+  apply tick_matches_spec in M1. destruct M1 as (_ & P & S & _). now rewrite <- P, Ht, S.
+Qed.
+
+Lemma nonterminal_forall mts ticks :
+  list_match tick_matches mts ticks = true ->
+  Forall (fun t => is_terminal (snd t) = false) mts ->
+  Forall (fun t => is_process (snd t) = true) mts ->
+  forallb (fun t => t_proc t && t_same t && negb (t_term t)) ticks = true.
+Proof.
+  intros M F. revert ticks M. induction F as [|t mts Ht F IH]; intros [|o ticks] M G; cbn in M;
+    try discriminate; [reflexivity|].
+  apply andb_prop in M. destruct M as [M1 M2]. inversion G; subst. cbn.
+  rewrite (IH _ M2) by assumption. rewrite andb_true_r.
+  apply tick_matches_spec in M1. destruct M1 as (_ & P & S & T & _).
+  rewrite <- P, <- T, Ht, S. now rewrite H1.
+Qed.
+
+Lemma loop_shape_sound (f : list (ev * script)) e e' mts ticks :
+  m_run_loop e f = (e', mts) -> list_match tick_matches mts ticks = true ->
+  match rev ticks with
+  | [] => false
+  | last :: _ =>
+      forallb (fun t => t_proc t && t_same t && negb (t_term t)) (all_but_last ticks) &&
+      t_term last &&
+      (if t_proc last then t_same last && Nat.leb (length ticks) (length f)
+       else Nat.eqb (length ticks) (S (length f)))
+  end = true.
+Proof.
+  intros H M.
+  destruct (run_loop_shape unit unit u_z u_z u_p u_p _ _ _ _ H)
+    as (pre & last & E & Hpre & Hlast & Hc & Hd).
+  subst mts. destruct (list_match_app_l _ _ _ _ M) as (tpre & tlast & -> & Mp & Ml).
+  rewrite rev_unit. unfold all_but_last. rewrite removelast_last.
+  assert (PP : Forall (fun t => is_process (snd t) = true) pre).
+  { apply Forall_forall. intros t I. apply In_nth_error in I. destruct I as [j N].
+    assert (NC : nth_error (map (fun t => carried (snd t)) pre) j = Some (carried (snd t)))
+      by (rewrite nth_error_map, N; reflexivity).
+    rewrite Hc, nth_error_map in NC. destruct (snd t); [|reflexivity].
+    destruct (nth_error (firstn (length pre) (map fst f)) j); discriminate. }
+  rewrite (nonterminal_forall _ _ Mp Hpre PP). cbn [andb].
+  apply tick_matches_spec in Ml. destruct Ml as (_ & P & Sm & T & _).
+  rewrite <- T, Hlast, <- P, Sm. cbn [andb].
+  rewrite app_length. cbn [length]. rewrite <- (list_match_length _ _ _ Mp).
+  destruct Hd as [[D1 D2]|(x & D1 & D2)].
+  - rewrite D1. cbn. rewrite D2. replace (length f + 1)%nat with (S (length f)) by lia.
+    apply Nat.eqb_refl.
+  - destruct (snd last); [discriminate|]. cbn.
+    assert (length pre < length (map fst f))%nat by (apply nth_error_Some; congruence).
+    rewrite map_length in H0. apply Nat.leb_le. lia.
+Qed.
+
+(* ---- group 3: the observed engines ---------------------------------------------------------------- *)
+Lemma eng_matches_Some e o :
+  eng_matches (Some e) o = true ->
+  exists x, o = Some x /\ e_seq e = eo_seq x /\ trading (e_state e) = eo_trading x /\
+            omap_eqb (orders (e_state e)) (eo_orders x) = true.
+Proof.
+  destruct o as [x|]; cbn; [|discriminate]. intro H.
+  apply andb_prop in H. destruct H as [H H3]. apply andb_prop in H. destruct H as [H1 H2].
+  apply N.eqb_eq in H1. apply eqb_prop in H2. eauto.
+Qed.
+
+Lemma eng_matches_None o : eng_matches None o = true -> o = None.
+Proof. destruct o; cbn; [discriminate|reflexivity]. Qed.
+
+Lemma manual_eng_sound : forall (f : list (ev * script)) e e' mts ticks engs,
+  m_run_manual e f = (e', mts) ->
+  list_match tick_matches mts ticks = true ->
+  list_match eng_matches (map Some (m_trace e f)) engs = true ->
+  length engs = length ticks /\ eng_seq_ok ticks engs = true.
+Proof.
+  induction f as [|[x sc] f IH]; intros e e' mts ticks engs H M G; cbn [Replica.run_manual] in H.
+  - injection H as <- <-. destruct ticks; [|discriminate]. destruct engs; [|discriminate]. auto.
+  - cbn [m_trace map] in G.
+    destruct (process_with_audit_spec unit unit u_z u_z u_p u_p e x sc) as (errs & o & Hp).
+    rewrite Hp in H, G. cbn [fst] in G.
+    destruct (m_run_manual _ f) as [e'' ts'] eqn:Hr. injection H as <- <-.
+    destruct ticks as [|t ticks]; [discriminate|]. destruct engs as [|g engs]; [discriminate|].
+    cbn [list_match] in M, G. apply andb_prop in M. destruct M as [M1 M2].
+    apply andb_prop in G. destruct G as [G1 G2].
+    destruct (IH _ _ _ _ _ Hr M2 G2) as [L S]. split; [cbn; now rewrite L|].
+    unfold eng_seq_ok in *. cbn. rewrite S, andb_true_r.
+    apply eng_matches_Some in G1. destruct G1 as (y & -> & Q & _).
+    apply tick_matches_spec in M1. destruct M1 as (T & _). cbn in Q, T.
+    rewrite <- Q, <- T. apply N.eqb_refl.
+Qed.
+
+Lemma loop_eng_shape (e2 : engine unit) : forall ticks engs s,
+  map t_seq ticks = seqN s (length ticks) -> ticks <> [] ->
+  e_seq e2 = (s + N.of_nat (length ticks))%N ->
+  list_match eng_matches (repeat None (pred (length ticks)) ++ [Some e2]) engs = true ->
+  length engs = length ticks /\ eng_seq_ok ticks engs = true.
+Proof.
+  induction ticks as [|t ticks IH]; intros engs s Q NE E G; [congruence|].
+  cbn [map length seqN] in Q. injection Q as Q1 Q2.
+  destruct ticks as [|t2 ticks].
+  - cbn in G. destruct engs as [|g [|g2 engs]]; try discriminate;
+      [|cbn in G; rewrite andb_false_r in G; discriminate].
+    cbn in G. rewrite andb_true_r in G. apply eng_matches_Some in G.
+    destruct G as (y & -> & Qy & _). split; [reflexivity|].
+    unfold eng_seq_ok. cbn. rewrite andb_true_r, <- Qy, E, Q1. cbn.
+    replace (s + 1)%N with (s + 1)%N by lia. apply N.eqb_eq. lia.
+  - cbn [length pred repeat app] in G. destruct engs as [|g engs]; [discriminate|].
+    cbn [list_match] in G. apply andb_prop in G. destruct G as [G1 G2].
+    apply eng_matches_None in G1. subst g.
+    destruct (IH engs (s + 1)%N Q2 ltac:(discriminate)) as [L S].
+    + rewrite E. cbn [length]. lia.
+    + exact G2.
+    + split; [cbn [length]; now rewrite L|]. unfold eng_seq_ok in *. cbn [list_match]. exact S.
+Qed.
+
+Lemma loop_eng_sound (f : list (ev * script)) e e2 mts ticks engs :
+  m_run_loop e f = (e2, mts) ->
+  list_match tick_matches mts ticks = true ->
+  list_match eng_matches (repeat None (pred (length mts)) ++ [Some e2]) engs = true ->
+  length engs = length ticks /\ eng_seq_ok ticks engs = true.
+Proof.
+  intros H M G.
+  destruct (run_loop_numbering unit unit u_z u_z u_p u_p _ _ _ _ H) as [N1 N2].
+  destruct (run_loop_shape unit unit u_z u_z u_p u_p _ _ _ _ H) as (pre & last & E & _).
+  pose proof (list_match_length _ _ _ M) as L. rewrite L in G.
+  apply (loop_eng_shape e2 ticks engs (e_seq e)).
+  - rewrite (ticks_seq_map _ _ M), N1, L. reflexivity.
+  - intro Z. subst ticks. subst mts. rewrite app_length in L. cbn in L. lia.
+  - rewrite N2, L. reflexivity.
+  - exact G.
+Qed.
+
+(* ---- group 4: the replica fed tick by tick ----------------------------------------------------------- *)
+Definition ok_flag (res : rres) : bool := match res with RErr => false | _ => true end.
+Definition unch_flag (res : rres) : bool := match res with RApplied => false | _ => true end.
+
+Lemma rep_matches_cons r t w fed o os :
+  rep_matches r ((t, w) :: fed) (o :: os) = true ->
+  forall r' res, m_replica_step r t = (r', res) ->
+  fst t = ro_fseq o /\ is_process (snd t) = ro_fproc o /\ ok_flag res = ro_ok o /\
+  r_seq r' = ro_seq o /\ trading (r_state r') = ro_trading o /\
+  omap_eqb (orders (r_state r')) (ro_orders o) = true /\ unch_flag res = ro_unchanged o /\
+  match ro_cmp o with Some c => (w && cmp_all c)%bool | None => negb w end = true /\
+  rep_matches r' fed os = true.
+Proof.
+  cbn [rep_matches]. intros H r' res E. rewrite E in H.
+  repeat match goal with
+         | H : (_ && _)%bool = true |- _ => apply andb_prop in H; destruct H
+         end.
+  repeat match goal with
+         | H : N.eqb _ _ = true |- _ => apply N.eqb_eq in H
+         | H : Bool.eqb _ _ = true |- _ => apply eqb_prop in H
+         end.
+  unfold ok_flag, unch_flag. repeat split; auto.
+Qed.
+
+Lemma rep_matches_nil_l r reps : rep_matches r [] reps = true -> reps = [].
+Proof. destruct reps; cbn; [reflexivity|discriminate]. Qed.
+
+Lemma rep_matches_cons_inv r t w fed reps :
+  rep_matches r ((t, w) :: fed) reps = true -> exists o os, reps = o :: os.
+Proof. destruct reps; cbn; [discriminate|eauto]. Qed.
+
+Lemma rep_rule_from_matches : forall fed r reps,
+  rep_matches r fed reps = true -> rep_rule_ok (r_seq r) reps = true.
+Proof.
+  induction fed as [|[t w] fed IH]; intros r reps H.
+  - apply rep_matches_nil_l in H. now subst.
+  - destruct (rep_matches_cons_inv _ _ _ _ _ H) as (o & os & ->).
+    destruct (m_replica_step r t) as [r' res] eqn:E.
+    destruct (rep_matches_cons _ _ _ _ _ _ H _ _ E) as (F1 & F2 & F3 & F4 & _ & _ & F7 & _ & R).
+    specialize (IH _ _ R). cbn [rep_rule_ok]. rewrite <- F1, <- F2, <- F3, <- F4, <- F7.
+    unfold Replica.replica_step in E. destruct t as [s a]. cbn [fst snd] in *.
+    destruct a as [|x errs oo]; cbn [is_process negb].
+    + injection E as <- <-. cbn. now rewrite N.eqb_refl, IH.
+    + destruct (N.leb_spec s (r_seq r)) as [L|L].
+      * injection E as <- <-. cbn. now rewrite N.eqb_refl, IH.
+      * destruct (N.eqb_spec (r_seq r) (s - 1)) as [Q|Q]; cbn [negb] in E; injection E as <- <-.
+        -- destruct (N.eqb_spec s (r_seq r + 1)); [|lia]. cbn [ok_flag unch_flag negb andb r_seq] in *.
+           now rewrite N.eqb_refl, IH.
+        -- destruct (N.eqb_spec s (r_seq r + 1)); [lia|]. cbn. now rewrite N.eqb_refl, IH.
+Qed.
+
+Lemma unch_same_replica r t r' res :
+  m_replica_step r t = (r', res) -> unch_flag res = true -> r' = r.
+Proof.
+  intros E U. pose proof (replica_step_seq unit unit u_z u_z u_p u_p _ _ _ _ E) as Q.
+  destruct res; try exact Q. discriminate.
+Qed.
+
+Lemma rep_frame_from_matches : forall fed r reps ptr po,
+  rep_matches r fed reps = true -> ptr = trading (r_state r) ->
+  omap_eqb (orders (r_state r)) po = true -> rep_frame_ok ptr po reps = true.
+Proof.
+  induction fed as [|[t w] fed IH]; intros r reps ptr po H T O.
+  - apply rep_matches_nil_l in H. now subst.
+  - destruct (rep_matches_cons_inv _ _ _ _ _ H) as (o & os & ->).
+    destruct (m_replica_step r t) as [r' res] eqn:E.
+    destruct (rep_matches_cons _ _ _ _ _ _ H _ _ E) as (_ & _ & _ & _ & F5 & F6 & F7 & _ & R).
+    cbn [rep_frame_ok]. rewrite (IH _ _ _ _ R (eq_sym F5) F6), andb_true_r.
+    destruct (ro_unchanged o) eqn:U; [|reflexivity].
+    assert (U' : unch_flag res = true) by congruence.
+    pose proof (unch_same_replica _ _ _ _ E U') as ->.
+    rewrite <- F5, T, Bool.eqb_reflx. cbn.
+    now rewrite (omap_eqb_via _ _ _ O F6), (omap_eqb_via _ _ _ F6 O).
+Qed.
+
+(* ---- group 5: StateReplicaManager::run over the whole fed stream ---------------------------------- *)
+Lemma In_firstn {A} n (l : list A) x : In x (firstn n l) -> In x l.
+Proof. intro H. rewrite <- (firstn_skipn n l). apply in_or_app. now left. Qed.
+Lemma In_skipn {A} n (l : list A) x : In x (skipn n l) -> In x l.
+Proof. intro H. rewrite <- (firstn_skipn n l). apply in_or_app. now right. Qed.
+
+Lemma perturb_list_In {A} p (l : list A) x : In x (perturb_list p l) -> In x l.
+Proof.
+  destruct p as [|i|i|i|i|i n]; cbn [perturb_list]; intro H; auto.
+  - apply in_app_or in H. destruct H; [eapply In_firstn|eapply In_skipn]; eauto.
+  - apply in_app_or in H. destruct H; [eapply In_firstn|eapply In_skipn]; eauto.
+  - destruct (skipn (N.to_nat i) l) as [|a [|b r]] eqn:E; auto.
+    apply in_app_or in H. destruct H as [H|H]; [eapply In_firstn; eauto|].
+    apply (In_skipn (N.to_nat i)). rewrite E. cbn in *. tauto.
+  - destruct (nth_error l (N.to_nat i)) eqn:E; auto.
+    apply in_app_or in H. destruct H as [H|[<-|[]]]; auto. eapply nth_error_In; eauto.
+  - apply in_app_or in H. destruct H as [H|H]; auto.
+    eapply In_skipn, In_firstn; eauto.
+Qed.
+
+Lemma seqN_ge s n x : In x (seqN s n) -> (s <= x)%N.
+Proof.
+  revert s; induction n; intros s H; cbn in H; [tauto|].
+  destruct H as [<-|H]; [lia|]. apply IHn in H. lia.
+Qed.
+Lemma seqN_NoDup s n : NoDup (seqN s n).
+Proof.
+  revert s; induction n; intro s; cbn; constructor; auto.
+  intro H. apply seqN_ge in H. lia.
+Qed.
+
+Lemma term_of_notin ticks s : ~ In s (map t_seq ticks) -> term_of ticks s = false.
+Proof.
+  unfold term_of. induction ticks as [|o ticks IH]; cbn; intro H; [reflexivity|].
+  rewrite IH by tauto. destruct (N.eqb_spec (t_seq o) s); [elim H; auto|reflexivity].
+Qed.
+
+Lemma term_of_spec : forall mts ticks t,
+  list_match tick_matches mts ticks = true -> NoDup (map fst mts) -> In t mts ->
+  term_of ticks (fst t) = is_terminal (snd t).
+Proof.
+  induction mts as [|m mts IH]; intros [|o ticks] t M ND I; cbn in M; try discriminate; [destruct I|].
+  apply andb_prop in M. destruct M as [M1 M2]. cbn [map] in ND. inversion ND as [|? ? NI ND']; subst.
+  pose proof (ticks_seq_map _ _ M2) as SM.
+  apply tick_matches_spec in M1. destruct M1 as (Q & _ & _ & T & _).
+  unfold term_of. cbn [existsb]. fold (term_of ticks (fst t)). destruct I as [->|I].
+  - rewrite <- Q, N.eqb_refl, <- T. cbn. rewrite term_of_notin by (rewrite SM; exact NI).
+    now rewrite orb_false_r.
+  - rewrite (IH _ _ M2 ND' I). destruct (N.eqb_spec (t_seq o) (fst t)) as [E|E]; [|reflexivity].
+    elim NI. rewrite Q, E. now apply in_map.
+Qed.
+
+Definition term_consistent (ticks : list tobs) (fed : list (mtick * bool)) : Prop :=
+  forall t w, In (t, w) fed -> term_of ticks (fst t) = is_terminal (snd t).
+
+Lemma term_consistent_tl ticks x fed : term_consistent ticks (x :: fed) -> term_consistent ticks fed.
+Proof. intros H t w I. apply (H t w). now right. Qed.
+
+Definition matches_replica (rw : replica unit) (o : robs) : Prop :=
+  r_seq rw = ro_seq o /\ trading (r_state rw) = ro_trading o /\
+  omap_eqb (orders (r_state rw)) (ro_orders o) = true.
+
+Lemma whole_walk_sound ticks : forall fed r reps,
+  rep_matches r fed reps = true -> term_consistent ticks fed ->
+  forall n ok rw okm,
+  whole_walk ticks (r_seq r) reps = (n, ok) -> m_replica_run r (map fst fed) = (rw, okm) ->
+  ok = okm /\
+  match n with
+  | O => rw = r
+  | S k => exists o, nth_error reps k = Some o /\ matches_replica rw o
+  end.
+Proof.
+  induction fed as [|[t w] fed IH]; intros r reps H TC n ok rw okm W R.
+  - apply rep_matches_nil_l in H. subst. cbn in W, R. injection W as <- <-. injection R as <- <-. auto.
+  - destruct (rep_matches_cons_inv _ _ _ _ _ H) as (o & os & ->).
+    destruct (m_replica_step r t) as [r' res] eqn:E.
+    destruct (rep_matches_cons _ _ _ _ _ _ H _ _ E) as (F1 & F2 & F3 & F4 & F5 & F6 & F7 & _ & RM).
+    assert (MO : matches_replica r' o) by (repeat split; auto).
+    pose proof (TC t w (or_introl eq_refl)) as TT.
+    specialize (IH _ _ RM (term_consistent_tl _ _ _ TC)).
+    cbn [map fst Replica.replica_run] in R. rewrite E in R.
+    cbn [whole_walk] in W. rewrite <- F1, <- F2 in W.
+    unfold Replica.replica_step in E. destruct t as [s a]. cbn [fst snd] in *.
+    destruct a as [|x errs oo]; cbn [is_process negb] in W.
+    + injection E as <- <-. injection W as <- <-. injection R as <- <-. split; [reflexivity|].
+      exists o. split; [reflexivity|exact MO].
+    + destruct (N.leb_spec s (r_seq r)) as [L|L].
+      * injection E as <- <-.
+        destruct (whole_walk ticks (r_seq r) os) as [n' ok'] eqn:W'. injection W as <- <-.
+        destruct (IH _ _ _ _ eq_refl R) as [I1 I2]. split; [exact I1|].
+        destruct n' as [|k]; [subst rw; exists o; split; [reflexivity|exact MO]|exact I2].
+      * destruct (N.eqb_spec (r_seq r) (s - 1)) as [Q|Q]; cbn [negb] in E; injection E as <- <-.
+        -- destruct (N.eqb_spec s (r_seq r + 1)); [|lia]. rewrite TT in W.
+           destruct (is_terminal (AProcess x errs oo)).
+           ++ injection W as <- <-. injection R as <- <-. split; [reflexivity|].
+              exists o. split; [reflexivity|exact MO].
+           ++ destruct (whole_walk ticks s os) as [n' ok'] eqn:W'. injection W as <- <-.
+              destruct (IH _ _ _ _ W' R) as [I1 I2]. split; [exact I1|].
+              destruct n' as [|k]; [subst rw; exists o; split; [reflexivity|exact MO]|exact I2].
+        -- destruct (N.eqb_spec s (r_seq r + 1)); [lia|].
+           injection W as <- <-. injection R as <- <-. split; [reflexivity|].
+           exists o. split; [reflexivity|exact MO].
+Qed.
+
+(* ---- group 6: the simulation part ---------------------------------------------------------------------- *)
+Notation m_step_ok := (step_ok unit unit u_z u_z u_p u_p).
+Definition flag (e : option (engine unit)) : bool := match e with Some _ => true | None => false end.
+
+Lemma proj_fix_open (o : order) : proj (Some o) = Some o -> exists m, o_st o = Open m.
+Proof.
+  destruct o as [sf q [|m|[m|]]]; cbn; intro H; try discriminate; eauto.
+Qed.
+
+Lemma no_markers_marker_free m a :
+  omap_eqb m a = true -> no_markers a = true -> marker_free m.
+Proof.
+  intros E N k. rewrite (omap_eqb_ext _ _ E k). destruct (ofind a k) as [o|] eqn:F; [|reflexivity].
+  apply ofind_Some_In in F. unfold no_markers in N. rewrite forallb_forall in N.
+  specialize (N _ F). cbn in N. destruct o as [sf q [|mm|c]]; try discriminate. reflexivity.
+Qed.
+
+Lemma marker_free_no_markers m a :
+  omap_eqb m a = true -> marker_free m -> no_markers a = true.
+Proof.
+  intros E MF. unfold no_markers. apply forallb_forall. intros [k o] I. cbn.
+  pose proof (In_ofind_nodup _ _ _ (omap_eqb_nodup _ _ E) I) as F.
+  specialize (MF k). rewrite (omap_eqb_ext _ _ E k), F in MF.
+  destruct (proj_fix_open _ MF) as [mm ->]. reflexivity.
+Qed.
+
+Lemma orders_related_sound me mr a b :
+  omap_eqb me a = true -> omap_eqb mr b = true ->
+  (forall k, proj (ofind me k) = proj (ofind mr k)) -> orders_related a b = true.
+Proof.
+  intros Ea Eb H. unfold orders_related.
+  rewrite (omap_eqb_nodup _ _ Ea), (omap_eqb_nodup _ _ Eb). cbn.
+  apply forallb_forall. intros k _.
+  rewrite <- (omap_eqb_ext _ _ Ea k), <- (omap_eqb_ext _ _ Eb k), H. apply oorder_eqb_refl.
+Qed.
+
+Lemma eng_rep_ok_sound (e : engine unit) (r : replica unit) xe o :
+  Rst (e_state e) (r_state r) -> eng_matches (Some e) (Some xe) = true ->
+  matches_replica r o ->
+  match ro_cmp o with Some c => cmp_all c | None => false end = true ->
+  eng_rep_ok xe o = true.
+Proof.
+  intros (R1 & _ & R3) G (_ & M2 & M3) C.
+  apply eng_matches_Some in G. destruct G as (y & Ey & _ & T & O). injection Ey as <-.
+  unfold eng_rep_ok. rewrite C, andb_true_r, <- T, <- M2, R1, Bool.eqb_reflx. cbn.
+  exact (orders_related_sound _ _ _ _ O M3 R3).
+Qed.
+
+Lemma cmp_flag_true o c0 :
+  match ro_cmp o with Some c => (true && cmp_all c)%bool | None => negb true end = true ->
+  c0 = tt -> match ro_cmp o with Some c => cmp_all c | None => false end = true.
+Proof. destruct (ro_cmp o); cbn; auto. Qed.
+
+Lemma head_step mf (e : engine unit) (r : replica unit) x sc errs oo w fed o os t :
+  Rel e r -> m_step_ok (e_state e) (r_state r) x sc = true ->
+  (mf = true -> marker_free (orders (r_state r))) ->
+  tick_matches (e_seq e, AProcess x errs oo) t = true ->
+  rep_matches r (((e_seq e, AProcess x errs oo), w) :: fed) (o :: os) = true ->
+  let e1 := mkEngine (fst (m_process (e_state e) x sc)) (e_seq e + 1) in
+  let r1 := mkReplica (m_replica_update (r_state r) x) (e_seq e) in
+  Rel e1 r1 /\ (mf = true -> marker_free (orders (r_state r1))) /\
+  rep_matches r1 fed os = true /\ matches_replica r1 o /\
+  m_replica_step r (e_seq e, AProcess x errs oo) = (r1, RApplied) /\
+  (N.eqb (ro_fseq o) (t_seq t) &&
+   (if t_proc t then ro_ok o && negb (ro_unchanged o) else ro_ok o) &&
+   (if mf then no_markers (ro_orders o) else true))%bool = true /\
+  match ro_cmp o with Some c => (w && cmp_all c)%bool | None => negb w end = true.
+Proof.
+  intros [HR Hs] Hok MF TM RM e1 r1.
+  pose proof (replica_step_next unit unit u_z u_z u_p u_p r (e_seq e) x errs oo Hs) as ST.
+  fold r1 in ST.
+  destruct (rep_matches_cons _ _ _ _ _ _ RM _ _ ST) as (F1 & F2 & F3 & F4 & F5 & F6 & F7 & F8 & R).
+  assert (HR' : Rel e1 r1).
+  { split; cbn [e_state r_state e_seq r_seq e1 r1]; [|reflexivity].
+    rewrite process_state_eq. apply Rst_step; auto. }
+  assert (MF' : mf = true -> marker_free (orders (r_state r1))).
+  { intro Q. cbn [r_state r1]. apply (marker_free_step unit unit u_z u_z u_p u_p _ _ _ _ Hok). auto. }
+  split; [exact HR'|]. split; [exact MF'|]. split; [exact R|].
+  split; [repeat split; auto|]. split; [exact ST|]. split; [|exact F8].
+  apply tick_matches_spec in TM. destruct TM as (Q & P & _).
+  cbn [fst snd] in *. rewrite <- Q, <- F1, N.eqb_refl, <- P. cbn [is_process andb].
+  rewrite <- F3, <- F7. cbn. destruct mf; [|reflexivity].
+  apply (marker_free_no_markers _ _ F6). auto.
+Qed.
+
+Lemma m_trace_seq : forall (f : list (ev * script)) e j ej,
+  nth_error (m_trace e f) j = Some ej -> e_seq ej = (e_seq e + N.of_nat j + 1)%N.
+Proof.
+  induction f as [|[x sc] f IH]; intros e j ej N; cbn [m_trace] in N; [destruct j; discriminate|].
+  destruct (process_with_audit_spec unit unit u_z u_z u_p u_p e x sc) as (errs & o & Hp).
+  rewrite Hp in N. cbn [fst] in N. destruct j as [|j]; cbn in N.
+  - injection N as <-. cbn. lia.
+  - apply IH in N. cbn [e_seq] in N. lia.
+Qed.
+
+Lemma manual_sim mf : forall (f : list (ev * script)) e r e' mts ticks engs reps,
+  Rel e r -> m_hyps (e_state e) (r_state r) f = true ->
+  (mf = true -> marker_free (orders (r_state r))) ->
+  m_run_manual e f = (e', mts) ->
+  list_match tick_matches mts ticks = true ->
+  list_match eng_matches (map Some (m_trace e f)) engs = true ->
+  rep_matches r (combine mts (map flag (map Some (m_trace e f)))) reps = true ->
+  list_match (sim_tick mf) (combine ticks engs) reps = true /\
+  exists rw, m_replica_run r mts = (rw, true) /\
+    (rw = r \/ exists j ej, nth_error (m_trace e f) j = Some ej /\
+                            e_seq ej = (r_seq rw + 1)%N /\ Rst (e_state ej) (r_state rw)).
+Proof.
+  induction f as [|[x sc] f IH]; intros e r e' mts ticks engs reps HR Hh MF H M G RM;
+    cbn [Replica.run_manual] in H.
+  - injection H as <- <-. destruct ticks; [|discriminate]. destruct engs; [|discriminate].
+    cbn in RM. destruct reps; [|discriminate]. split; [reflexivity|].
+    exists r. split; [reflexivity|now left].
+  - cbn [Replica.hyps] in Hh. apply andb_prop in Hh. destruct Hh as [Hok Hh].
+    cbn [m_trace map] in G, RM.
+    destruct (process_with_audit_spec unit unit u_z u_z u_p u_p e x sc) as (errs & o & Hp).
+    rewrite Hp in H, G, RM. cbn [fst] in G, RM.
+    destruct (m_run_manual _ f) as [e'' ts'] eqn:Hr. injection H as <- <-.
+    destruct ticks as [|t ticks]; [discriminate|]. destruct engs as [|g engs]; [discriminate|].
+    cbn [list_match] in M, G. apply andb_prop in M. destruct M as [M1 M2].
+    apply andb_prop in G. destruct G as [G1 G2].
+    cbn [combine flag] in RM.
+    destruct (rep_matches_cons_inv _ _ _ _ _ RM) as (ob & os & ->).
+    destruct (head_step mf e r x sc errs o true _ ob os t HR Hok MF M1 RM)
+      as (HR' & MF' & RM' & MR & ST & HD & CF).
+    set (e1 := mkEngine (fst (m_process (e_state e) x sc)) (e_seq e + 1)) in *.
+    set (r1 := mkReplica (m_replica_update (r_state r) x) (e_seq e)) in *.
+    destruct (IH e1 r1 _ _ _ _ _ HR' Hh MF' Hr M2 G2 RM') as (I1 & rw & I2 & I3).
+    split.
+    + cbn [combine list_match]. rewrite I1, andb_true_r. unfold sim_tick. cbn [fst snd].
+      rewrite HD. cbn [andb].
+      destruct (eng_matches_Some _ _ G1) as (y & -> & _).
+      apply (eng_rep_ok_sound e1 r1);
+        [apply (proj1 HR')|assumption|exact MR|destruct (ro_cmp ob); cbn in CF |- *; auto].
+    + assert (TR : m_trace e ((x, sc) :: f) = e1 :: m_trace e1 f).
+      { cbn [m_trace]. rewrite Hp. reflexivity. }
+      rewrite TR. cbn [Replica.replica_run]. rewrite ST. cbn [snd].
+      destruct (is_terminal (AProcess x errs o)).
+      * exists r1. split; [reflexivity|]. right. exists 0%nat, e1.
+        split; [reflexivity|]. split; [cbn; lia|apply (proj1 HR')].
+      * exists rw. split; [exact I2|]. right. destruct I3 as [->|(j & ej & N1 & N2 & N3)].
+        -- exists 0%nat, e1. split; [reflexivity|]. split; [cbn; lia|apply (proj1 HR')].
+        -- exists (S j), ej. split; [exact N1|]. split; assumption.
+Qed.
+
+Lemma run_loop_nonempty : forall (f : list (ev * script)) e e' ts,
+  m_run_loop e f = (e', ts) -> ts <> [].
+Proof.
+  intros f e e' ts H. destruct (run_loop_shape unit unit u_z u_z u_p u_p _ _ _ _ H) as (pre & l & -> & _).
+  destruct pre; discriminate.
+Qed.
+
+Lemma loop_sim mf : forall (f : list (ev * script)) e r e2 mts ticks engs reps,
+  Rel e r ->
+  m_hyps (e_state e) (r_state r)
+         (firstn (length (filter (fun t => is_process (snd t)) mts)) f) = true ->
+  (mf = true -> marker_free (orders (r_state r))) ->
+  m_run_loop e f = (e2, mts) ->
+  list_match tick_matches mts ticks = true ->
+  list_match eng_matches (repeat None (pred (length mts)) ++ [Some e2]) engs = true ->
+  rep_matches r (combine mts (map flag (repeat None (pred (length mts)) ++ [Some e2]))) reps = true ->
+  list_match (sim_tick mf) (combine ticks engs) reps = true /\
+  exists rw, m_replica_run r mts = (rw, true) /\ Rst (e_state e2) (r_state rw).
+Proof.
+  induction f as [|[x sc] f IH]; intros e r e2 mts ticks engs reps HR Hh MF H M G RM;
+    cbn [Replica.run_loop] in H.
+  - unfold audit_feed_ended in H. injection H as <- <-.
+    cbn [length pred repeat app map flag combine] in G, RM.
+    destruct ticks as [|t [|t2 ticks]]; try discriminate;
+      [|cbn in M; rewrite andb_false_r in M; discriminate].
+    destruct engs as [|g [|g2 engs]]; try discriminate;
+      [|cbn in G; rewrite andb_false_r in G; discriminate].
+    destruct reps as [|ob [|o2 reps]]; try discriminate.
+    2:{ cbn in RM. rewrite !andb_false_r in RM. discriminate. }
+    cbn [list_match] in M, G. rewrite andb_true_r in M, G.
+    assert (ST : m_replica_step r (e_seq e, AFeedEnded) = (r, RStopped)) by reflexivity.
+    destruct (rep_matches_cons _ _ _ _ _ _ RM _ _ ST) as (F1 & F2 & F3 & F4 & F5 & F6 & F7 & F8 & _).
+    split.
+    + cbn [combine list_match]. rewrite andb_true_r. unfold sim_tick. cbn [fst snd].
+      apply tick_matches_spec in M. destruct M as (Q & P & _). cbn [fst snd] in *.
+      rewrite <- Q, <- F1, N.eqb_refl, <- P. cbn [is_process andb]. rewrite <- F3. cbn [ok_flag andb].
+      assert (NM : (if mf then no_markers (ro_orders ob) else true) = true).
+      { destruct mf; [|reflexivity]. apply (marker_free_no_markers _ _ F6). auto. }
+      rewrite NM. cbn [andb].
+      destruct (eng_matches_Some _ _ G) as (y & -> & _).
+      apply (eng_rep_ok_sound (mkEngine (e_state e) (e_seq e + 1)) r);
+        [apply (proj1 HR)|assumption|repeat split; auto|destruct (ro_cmp ob); cbn in F8 |- *; auto].
+    + exists r. split; [reflexivity|apply (proj1 HR)].
+  - destruct (process_with_audit_spec unit unit u_z u_z u_p u_p e x sc) as (errs & o & Hp).
+    rewrite Hp in H. cbn [snd] in H.
+    set (e1 := mkEngine (fst (m_process (e_state e) x sc)) (e_seq e + 1)) in *.
+    destruct (is_terminal (AProcess x errs o)) eqn:Ht.
+    + injection H as <- <-.
+      cbn [length pred repeat app map flag combine filter snd is_process firstn] in G, RM, Hh.
+      cbn [Replica.hyps] in Hh. apply andb_prop in Hh. destruct Hh as [Hok _].
+      destruct ticks as [|t [|t2 ticks]]; try discriminate;
+        [|cbn in M; rewrite andb_false_r in M; discriminate].
+      destruct engs as [|g [|g2 engs]]; try discriminate;
+        [|cbn in G; rewrite andb_false_r in G; discriminate].
+      destruct reps as [|ob [|o2 reps]]; try discriminate.
+      2:{ cbn [rep_matches] in RM. destruct (m_replica_step r _) as [rq resq].
+          rewrite !andb_false_r in RM. discriminate. }
+      cbn [list_match] in M, G. rewrite andb_true_r in M, G.
+      destruct (head_step mf e r x sc errs o true _ ob [] t HR Hok MF M RM)
+        as (HR' & MF' & RM' & MR & ST & HD & CF).
+      fold e1 in HR'.
+      set (r1 := mkReplica (m_replica_update (r_state r) x) (e_seq e)) in *.
+      split.
+      * cbn [combine list_match]. rewrite andb_true_r. unfold sim_tick. cbn [fst snd].
+        rewrite HD. cbn [andb]. destruct (eng_matches_Some _ _ G) as (y & -> & _).
+        apply (eng_rep_ok_sound e1 r1);
+          [apply (proj1 HR')|assumption|exact MR|destruct (ro_cmp ob); cbn in CF |- *; auto].
+      * exists r1. split; [|apply (proj1 HR')].
+        cbn [Replica.replica_run]. rewrite ST. cbn [snd]. now rewrite Ht.
+    + destruct (m_run_loop e1 f) as [e'' ts'] eqn:Hr. injection H as <- <-.
+      pose proof (run_loop_nonempty _ _ _ _ Hr) as NE.
+      destruct ts' as [|t1 ts']; [congruence|].
+      cbn [length pred] in G, RM.
+      change (repeat None (S (length ts'))) with (@None (engine unit) :: repeat None (length ts')) in G, RM.
+      cbn [app map flag combine] in G, RM.
+      cbn [filter snd is_process length firstn] in Hh.
+      cbn [Replica.hyps] in Hh. apply andb_prop in Hh. destruct Hh as [Hok Hh].
+      destruct ticks as [|t ticks]; [discriminate|]. destruct engs as [|g engs]; [discriminate|].
+      cbn [list_match] in M, G. apply andb_prop in M. destruct M as [M1 M2].
+      apply andb_prop in G. destruct G as [G1 G2]. apply eng_matches_None in G1. subst g.
+      destruct (rep_matches_cons_inv _ _ _ _ _ RM) as (ob & os & ->).
+      destruct (head_step mf e r x sc errs o false _ ob os t HR Hok MF M1 RM)
+        as (HR' & MF' & RM' & MR & ST & HD & CF).
+      fold e1 in HR'.
+      set (r1 := mkReplica (m_replica_update (r_state r) x) (e_seq e)) in *.
+      destruct (IH e1 r1 e'' (t1 :: ts') ticks engs os HR' Hh MF' Hr M2 G2 RM') as (I1 & rw & I2 & I3).
+      split.
+      * cbn [combine list_match]. rewrite I1, andb_true_r. unfold sim_tick. cbn [fst snd].
+        rewrite HD. reflexivity.
+      * exists rw. split; [|exact I3]. cbn [Replica.replica_run]. rewrite ST. cbn [snd].
+        rewrite Ht. exact I2.
+Qed.
+
+(* ---- group 7: assembly ---------------------------------------------------------------------------------- *)
+Lemma rep_matches_length : forall fed r reps, rep_matches r fed reps = true -> length reps = length fed.
+Proof.
+  induction fed as [|[t w] fed IH]; intros r reps H.
+  - apply rep_matches_nil_l in H. now subst.
+  - destruct (rep_matches_cons_inv _ _ _ _ _ H) as (o & os & ->).
+    destruct (m_replica_step r t) as [r' res] eqn:E.
+    destruct (rep_matches_cons _ _ _ _ _ _ H _ _ E) as (_ & _ & _ & _ & _ & _ & _ & _ & R).
+    cbn. f_equal. eauto.
+Qed.
+
+Lemma list_match_nth_r {A B} (f : A -> B -> bool) l1 l2 k y :
+  list_match f l1 l2 = true -> nth_error l2 k = Some y ->
+  exists x, nth_error l1 k = Some x /\ f x y = true.
+Proof.
+  revert l2 k; induction l1 as [|a t IH]; intros [|b t2] k; cbn; intros H N; try discriminate;
+    try (destruct k; discriminate).
+  apply andb_prop in H. destruct H as [H1 H2]. destruct k; cbn in *.
+  - injection N as <-. eauto.
+  - eauto.
+Qed.
+
+Lemma map_fst_combine {A B} (a : list A) (b : list B) :
+  length a = length b -> map fst (combine a b) = a.
+Proof.
+  revert b; induction a as [|x a IH]; intros [|y b] L; cbn in *; try discriminate; auto.
+  f_equal. apply IH. lia.
+Qed.
+
+Lemma last_eng_snoc engs x : last_eng (engs ++ [Some x]) = Some x.
+Proof. unfold last_eng. rewrite fold_left_app. reflexivity. Qed.
+
+Lemma filter_all {A} (f : A -> bool) l : Forall (fun x => f x = true) l -> filter f l = l.
+Proof. induction 1; cbn; [reflexivity|]. rewrite H. now f_equal. Qed.
+
+Lemma m_trace_length : forall (f : list (ev * script)) e, length (m_trace e f) = length f.
+Proof. induction f as [|[x sc] f IH]; intro e; cbn; [reflexivity|]. now rewrite IH. Qed.
+
+Theorem oracle_sound : forall c, corr_b c = true -> prop_b c = true.
+Proof.
+  intros [md sinit tr0 bad hook pre feed p snap_seq snap_tr snap_orders snap_eq ticks engs reps whole|];
+    [|discriminate].
+  intro H. unfold corr_b in H.
+  pose proof (model_run_spec md sinit tr0 bad hook pre feed) as SP. cbv zeta in SP.
+  assert (WFE : wf_case (mkCase md sinit tr0 bad hook pre feed p snap_seq snap_tr snap_orders snap_eq
+                                ticks engs reps whole) =
+                m_hyps (snd (mr_snap (model_run md sinit tr0 bad hook pre feed)))
+                       (snd (mr_snap (model_run md sinit tr0 bad hook pre feed)))
+                       (firstn (length (filter (fun t => is_process (snd t))
+                                               (mr_ticks (model_run md sinit tr0 bad hook pre feed))))
+                               (mr_feed (model_run md sinit tr0 bad hook pre feed)))) by reflexivity.
+  set (m := model_run md sinit tr0 bad hook pre feed) in *.
+  destruct SP as (e1 & S1 & S2 & S3 & SM).
+  set (r0 := replica_init (mr_snap m)) in *.
+  set (flags := map (fun e : option (engine unit) => match e with Some _ => is_pnone p | None => false end)
+                    (mr_eng m)) in *.
+  set (fed := perturb_list p (combine (mr_ticks m) flags)) in *.
+  cbv zeta in H.
+  destruct (m_replica_run r0 (map fst fed)) as [rw okm] eqn:RW.
+  repeat match goal with
+         | H : (_ && _)%bool = true |- _ => apply andb_prop in H; destruct H
+         end.
+  repeat match goal with
+         | H : N.eqb _ _ = true |- _ => apply N.eqb_eq in H
+         | H : Bool.eqb _ _ = true |- _ => apply eqb_prop in H
+         end.
+  match goal with H : fst (mr_snap m) = snap_seq |- _ => rename H into C1 end.
+  match goal with H : trading (snd (mr_snap m)) = snap_tr |- _ => rename H into C2 end.
+  match goal with H : omap_eqb (orders (snd (mr_snap m))) snap_orders = true |- _ => rename H into C3 end.
+  match goal with H : list_match tick_matches _ _ = true |- _ => rename H into LT end.
+  match goal with H : list_match eng_matches _ _ = true |- _ => rename H into LE end.
+  match goal with H : rep_matches _ _ _ = true |- _ => rename H into RM end.
+  match goal with H : okm = ro_ok whole |- _ => rename H into W1 end.
+  match goal with H : r_seq rw = ro_seq whole |- _ => rename H into W2 end.
+  match goal with H : trading (r_state rw) = ro_trading whole |- _ => rename H into W3 end.
+  match goal with H : omap_eqb (orders (r_state rw)) _ = true |- _ => rename H into W4 end.
+  match goal with H : N.eqb (r_seq rw) (r_seq r0) = ro_unchanged whole |- _ => rename H into W5 end.
+  match goal with H : match ro_cmp whole with _ => _ end = true |- _ => rename H into W6 end.
+  subst snap_eq.
+  assert (R0seq : r_seq r0 = snap_seq) by (rewrite <- C1; reflexivity).
+  assert (R0tr : trading (r_state r0) = snap_tr) by (rewrite <- C2; reflexivity).
+  assert (LF : length (mr_feed m) = length feed).
+  { rewrite <- (map_length fst (mr_feed m)), S3. apply map_length. }
+  (* facts common to both modes *)
+  assert (COMMON :
+    map fst (mr_ticks m) = seqN (snap_seq + 1) (length (mr_ticks m)) /\
+    carries (map fst feed) 0 (mr_ticks m) /\
+    length (mr_eng m) = length (mr_ticks m) /\
+    (length engs = length ticks /\ eng_seq_ok ticks engs = true) /\
+    match md with
+    | Manual => (Nat.eqb (length ticks) (length feed) &&
+                 forallb (fun t => t_proc t && t_same t) ticks)%bool
+    | _ => match rev ticks with
+           | [] => false
+           | last :: _ =>
+               forallb (fun t => t_proc t && t_same t && negb (t_term t)) (all_but_last ticks) &&
+               t_term last &&
+               (if t_proc last then t_same last && Nat.leb (length ticks) (length feed)
+                else Nat.eqb (length ticks) (S (length feed)))
+           end
+    end = true).
+  { rewrite <- C1, <- S1, <- S3, <- LF. destruct md.
+    - destruct SM as [SM1 SM2].
+      destruct (run_manual_numbering unit unit u_z u_z u_p u_p _ _ _ _ SM1) as (N1 & N2 & _ & _).
+      destruct (run_manual_carries _ _ _ _ SM1) as [CA PR].
+      split; [now rewrite N2|]. split; [exact CA|].
+      split; [rewrite SM2, map_length, m_trace_length; now rewrite N2|].
+      split; [rewrite SM2 in LE; exact (manual_eng_sound _ _ _ _ _ _ SM1 LT LE)|].
+      exact (manual_shape_sound _ _ _ LT N2 PR).
+    - destruct SM as [SM1 SM2].
+      destruct (run_loop_numbering unit unit u_z u_z u_p u_p _ _ _ _ SM1) as (N1 & _).
+      split; [exact N1|]. split; [exact (run_loop_carries _ _ _ _ SM1)|].
+      pose proof (run_loop_nonempty _ _ _ _ SM1) as NE.
+      split; [rewrite SM2, app_length, repeat_length; cbn [length];
+              destruct (mr_ticks m) as [|a0 l0]; [congruence|cbn [length pred]; lia]|].
+      split; [rewrite SM2 in LE; exact (loop_eng_sound _ _ _ _ _ _ SM1 LT LE)|].
+      exact (loop_shape_sound _ _ _ _ _ SM1 LT).
+    - destruct SM as [SM1 SM2].
+      destruct (run_loop_numbering unit unit u_z u_z u_p u_p _ _ _ _ SM1) as (N1 & _).
+      split; [exact N1|]. split; [exact (run_loop_carries _ _ _ _ SM1)|].
+      pose proof (run_loop_nonempty _ _ _ _ SM1) as NE.
+      split; [rewrite SM2, app_length, repeat_length; cbn [length];
+              destruct (mr_ticks m) as [|a0 l0]; [congruence|cbn [length pred]; lia]|].
+      split; [rewrite SM2 in LE; exact (loop_eng_sound _ _ _ _ _ _ SM1 LT LE)|].
+      exact (loop_shape_sound _ _ _ _ _ SM1 LT). }
+  destruct COMMON as (NUM & CAR & LENG & (LEN & ESQ) & SHAPE).
+  assert (TC : term_consistent ticks fed).
+  { intros t w I. apply perturb_list_In, in_combine_l in I.
+    apply (term_of_spec _ _ _ LT); [rewrite NUM; apply seqN_NoDup|exact I]. }
+  assert (A2 : ticks_ok md (length feed) snap_seq ticks = true).
+  { unfold ticks_ok. rewrite (numbering_ok _ _ _ LT NUM). cbn [andb]. destruct md; exact SHAPE. }
+  assert (A3 : terminal_flags_ok feed 0 ticks = true) by exact (terminal_flags_sound _ _ _ _ LT CAR).
+  assert (A4 : Nat.eqb (length engs) (length ticks) = true) by (rewrite LEN; apply Nat.eqb_refl).
+  assert (A6 : rep_rule_ok snap_seq reps = true).
+  { rewrite <- R0seq. exact (rep_rule_from_matches _ _ _ RM). }
+  assert (A7 : rep_frame_ok snap_tr snap_orders reps = true).
+  { apply (rep_frame_from_matches _ _ _ _ _ RM); [now rewrite R0tr|exact C3]. }
+  assert (A8 : whole_ok ticks snap_seq snap_tr snap_orders reps whole = true).
+  { (* whole_ok *)
+    unfold whole_ok. destruct (whole_walk ticks snap_seq reps) as [n ok] eqn:WW.
+    rewrite <- R0seq in WW.
+    destruct (whole_walk_sound ticks _ _ _ RM TC _ _ _ _ WW RW) as [OK ST].
+    repeat (apply andb_true_intro; split).
+    + rewrite <- W1, OK. apply Bool.eqb_reflx.
+    + destruct n as [|k].
+      * subst rw. rewrite <- W2, R0seq, N.eqb_refl, <- W3, R0tr, Bool.eqb_reflx. cbn.
+        exact (omap_eqb_via _ _ _ C3 W4).
+      * destruct ST as (o & -> & Q1 & Q2 & Q3).
+        rewrite <- W2, Q1, N.eqb_refl, <- W3, Q2, Bool.eqb_reflx. cbn.
+        now rewrite (omap_eqb_via _ _ _ Q3 W4), (omap_eqb_via _ _ _ W4 Q3).
+    + rewrite <- W5, <- W2, R0seq. apply Bool.eqb_reflx. }
+  unfold prop_b. rewrite A2, A3, A4, ESQ, A6, A7, A8. cbn [andb].
+  (* the simulation part *)
+  destruct (is_pnone p) eqn:PN; [|reflexivity]. cbn [andb].
+  rewrite WFE. destruct (m_hyps _ _ _) eqn:WF; [|reflexivity].
+  destruct p; try discriminate. cbn [perturb_list] in fed. cbn [is_pnone] in flags.
+  assert (FL : length (mr_ticks m) = length flags).
+  { unfold flags. now rewrite map_length, LENG. }
+  assert (MFC : map fst fed = mr_ticks m) by (apply map_fst_combine; exact FL).
+  rewrite MFC in RW.
+  assert (REL : Rel e1 r0).
+  { split; [|rewrite S1; reflexivity]. rewrite S2. repeat split; reflexivity. }
+  set (mf := no_markers snap_orders).
+  assert (MF : mf = true -> marker_free (orders (r_state r0))).
+  { intro Q. exact (no_markers_marker_free _ _ C3 Q). }
+  assert (LR : length ticks = length reps).
+  { rewrite (rep_matches_length _ _ _ RM). unfold fed. rewrite combine_length, <- FL, Nat.min_id.
+    symmetry. apply (list_match_length _ _ _ LT). }
+  assert (CMPW : match ro_cmp whole with Some x => cmp_all x | None => false end = true).
+  { destruct (ro_cmp whole); [cbn in W6; exact W6|discriminate]. }
+  assert (MW : matches_replica rw whole) by (repeat split; auto).
+  unfold sim_ok. rewrite LR, Nat.eqb_refl. cbn [andb].
+  destruct md.
+  - destruct SM as [SM1 SM2].
+    destruct (run_manual_carries _ _ _ _ SM1) as [_ PR].
+    destruct (run_manual_numbering unit unit u_z u_z u_p u_p _ _ _ _ SM1) as (_ & N2 & _ & _).
+    rewrite (filter_all _ _ PR), N2, firstn_all in WF.
+    assert (WF' : m_hyps (e_state e1) (r_state r0) (mr_feed m) = true) by (rewrite S2; exact WF).
+    assert (RM' : rep_matches r0 (combine (mr_ticks m) (map flag (map Some (m_trace e1 (mr_feed m)))))
+                              reps = true).
+    { unfold fed, flags in RM. rewrite SM2 in RM. exact RM. }
+    rewrite SM2 in LE.
+    destruct (manual_sim mf _ _ _ _ _ _ _ _ REL WF' MF SM1 LT LE RM') as (SIM & rw' & RR & STOP).
+    rewrite RR in RW. injection RW as <- <-.
+    rewrite SIM. cbn [andb]. apply andb_true_intro. split; [now rewrite <- W1|].
+    destruct (find _ engs) as [[xe|]|] eqn:FD; cbn [join_opt]; try exact CMPW.
+    apply find_some in FD. destruct FD as [IN SEQ]. apply N.eqb_eq in SEQ.
+    apply In_nth_error in IN. destruct IN as [i NI].
+    destruct (list_match_nth_r _ _ _ _ _ LE NI) as (me & NM & EM).
+    rewrite nth_error_map in NM. destruct (nth_error (m_trace e1 (mr_feed m)) i) as [ei|] eqn:NT;
+      [|discriminate]. injection NM as <-.
+    pose proof (m_trace_seq _ _ _ _ NT) as QI.
+    destruct (eng_matches_Some _ _ EM) as (y & Ey & QS & _). injection Ey as <-.
+    destruct STOP as [->|(j & ej & NJ & QJ & RJ)].
+    + exfalso. unfold r0 in *. cbn [replica_init r_seq] in *. lia.
+    + pose proof (m_trace_seq _ _ _ _ NJ) as QJ'.
+      assert (i = j) by lia. subst j. rewrite NT in NJ. injection NJ as <-.
+      exact (eng_rep_ok_sound ei rw' xe whole RJ EM MW CMPW).
+  - destruct SM as [SM1 SM2].
+    assert (WF' : m_hyps (e_state e1) (r_state r0) (firstn (length (filter (fun t => is_process (snd t)) (mr_ticks m))) (mr_feed m)) = true) by (rewrite S2; exact WF).
+    assert (RM' : rep_matches r0 (combine (mr_ticks m)
+                     (map flag (repeat None (pred (length (mr_ticks m))) ++ [Some (mr_final m)])))
+                              reps = true).
+    { unfold fed, flags in RM. rewrite SM2 in RM. exact RM. }
+    rewrite SM2 in LE.
+    destruct (loop_sim mf _ _ _ _ _ _ _ _ REL WF' MF SM1 LT LE RM') as (SIM & rw' & RR & RST).
+    rewrite RR in RW. injection RW as <- <-.
+    rewrite SIM. cbn [andb]. apply andb_true_intro. split; [now rewrite <- W1|].
+    destruct (list_match_app_l _ _ _ _ LE) as (engs' & g & -> & _ & EM).
+    destruct (eng_matches_Some _ _ EM) as (y & -> & _).
+    rewrite last_eng_snoc.
+    exact (eng_rep_ok_sound (mr_final m) rw' y whole RST EM MW CMPW).
+  - destruct SM as [SM1 SM2].
+    assert (WF' : m_hyps (e_state e1) (r_state r0) (firstn (length (filter (fun t => is_process (snd t)) (mr_ticks m))) (mr_feed m)) = true) by (rewrite S2; exact WF).
+    assert (RM' : rep_matches r0 (combine (mr_ticks m)
+                     (map flag (repeat None (pred (length (mr_ticks m))) ++ [Some (mr_final m)])))
+                              reps = true).
+    { unfold fed, flags in RM. rewrite SM2 in RM. exact RM. }
+    rewrite SM2 in LE.
+    destruct (loop_sim mf _ _ _ _ _ _ _ _ REL WF' MF SM1 LT LE RM') as (SIM & rw' & RR & RST).
+    rewrite RR in RW. injection RW as <- <-.
+    rewrite SIM. cbn [andb]. apply andb_true_intro. split; [now rewrite <- W1|].
+    destruct (list_match_app_l _ _ _ _ LE) as (engs' & g & -> & _ & EM).
+    destruct (eng_matches_Some _ _ EM) as (y & -> & _).
+    rewrite last_eng_snoc.
+    exact (eng_rep_ok_sound (mr_final m) rw' y whole RST EM MW CMPW).
+Qed.
+Print Assumptions oracle_sound.
+
+(* ---- the validation rule alone ------------------------------------------------------------------------ *)
 Definition model_obs (t : N * audit unit) (r' : replica unit) (res : rres) : robs :=
   mkR (fst t) (is_process (snd t)) (match res with RErr => false | _ => true end)
       (r_seq r') (trading (r_state r')) (orders (r_state r'))
